@@ -4,6 +4,7 @@ import Driver.Util
 import Driver.C15
 import Driver.Codec
 import Driver.Engine
+import Driver.Raft
 import Driver.Scan
 import Driver.Sync
 import Driver.Stream
@@ -26,5 +27,6 @@ def main (args : List String) : IO UInt32 := do
   | ["stream"] => loop Drv.Stream.step hin hout {}; hout.flush; return 0
   | ["sync"] => loop Drv.Sync.step hin hout {}; hout.flush; return 0
   | ["scan"] => loop Drv.Scan.step hin hout none; hout.flush; return 0
+  | ["raft"] => loop Drv.Raft.step hin hout Drv.Raft.init; hout.flush; return 0
   | ["codec"] => loop Drv.Codec.step hin hout (); hout.flush; return 0
   | _ => IO.eprintln "usage: zvdriver <proto>"; return 2
